@@ -17,6 +17,7 @@ import (
 	"strconv"
 	"strings"
 	"sync"
+	"sync/atomic"
 	"time"
 
 	"github.com/plgd-dev/go-coap/v3/message/pool"
@@ -319,7 +320,17 @@ type c11Sched struct {
 	extT  *c11Thread
 }
 
-const c11Watchdog = 30 * time.Second
+// Watchdog for "nothing happens any more". A run that really hangs costs the whole watchdog; after a few
+// hangs in one invocation the remaining runs use a short one, so that a broken tree is reported (with the
+// hanging cases) in bounded time. On an intact tree no watchdog ever expires.
+var c11Hangs atomic.Int64
+
+func c11WD() time.Duration {
+	if c11Hangs.Load() >= 3 {
+		return 400 * time.Millisecond
+	}
+	return 30 * time.Second
+}
 
 func (s *c11Sched) yield(reader any, point string) {
 	select {
@@ -411,7 +422,8 @@ func (s *c11Sched) next() (*c11Thread, bool) {
 			t.exited = true
 		}
 		return t, true
-	case <-time.After(c11Watchdog):
+	case <-time.After(c11WD()):
+		c11Hangs.Add(1)
 		return nil, false
 	}
 }
@@ -723,7 +735,7 @@ func runC11Stat(cfg c11Cfg) (string, bool) {
 		}
 	}()
 	complete := true
-	deadline := time.After(c11Watchdog)
+	deadline := time.After(c11WD())
 	// witness of completion: every message logged and every satisfiable nested call returned
 	for {
 		fc.mu.Lock()
@@ -754,12 +766,15 @@ func runC11Stat(cfg c11Cfg) (string, bool) {
 		}
 		if stop {
 			complete = false
+			c11Hangs.Add(1)
 			break
 		}
 	}
 	// give a duplicate dispatch the chance to show: barrier through the queue itself is impossible without
 	// perturbing the log, so the log is read after the producer returned and all messages were seen.
-	<-pdone
+	if complete {
+		<-pdone
+	}
 	fc.mu.Lock()
 	var le []string
 	for _, e := range fc.log {
@@ -924,6 +939,13 @@ func runC11(a runArgs) error {
 	for i := 0; i < 12; i++ {
 		res := runC11Forced(f14, c11PlanChooser(strings.Fields("P L0 L0 L0 L0 P P L0 L0 L0 L1 L1 L1 L0 L0")))
 		emitForced(f14, res, "f14")
+	}
+	// an external caller asks for a replacement while the (idle) loop stands at its select with two messages
+	// queued: a no-op in the intact code; the plan entries that are not enabled are skipped
+	idle := c11Cfg{n: 2, k: 1, msgs: 3, progs: map[int][]c11Op{}}
+	for i := 0; i < 12; i++ {
+		res := runC11Forced(idle, c11PlanChooser(strings.Fields("P P P L0 L0 L0 L0 L0 X L0 L1 L1 L1 L0 L0")))
+		emitForced(idle, res, "idle-replace")
 	}
 	for i := 0; i < nrand; i++ {
 		c := c11RandomCfg(rng, thorough && i%3 == 0)
